@@ -449,6 +449,7 @@ type callLog struct {
 }
 
 type State struct {
+	refVals map[string]Val // reference term -> the structural pointer / interface value stored under it
 	keep    []Term // facts that survive a modular loop cut
 	matObjs map[string]ObjID // reference term -> backing array object of a nested slice
 	objRef  map[ObjID]Term
@@ -485,6 +486,10 @@ func (s *State) clone() *State {
 	for k, v := range s.objRef {
 		n.objRef[k] = v
 	}
+	n.refVals = make(map[string]Val, len(s.refVals))
+	for k, v := range s.refVals {
+		n.refVals[k] = v
+	}
 	n.pc = append([]Term(nil), s.pc...)
 	n.keep = append([]Term(nil), s.keep...)
 	return n
@@ -510,6 +515,10 @@ func (s *State) snapshot() *State {
 	n.objRef = make(map[ObjID]Term, len(s.objRef))
 	for k, v := range s.objRef {
 		n.objRef[k] = v
+	}
+	n.refVals = make(map[string]Val, len(s.refVals))
+	for k, v := range s.refVals {
+		n.refVals[k] = v
 	}
 	return n
 }
@@ -713,8 +722,20 @@ func (s *State) fromLeaf(t Term, typ types.Type) Val {
 	case *types.Basic:
 		return Scalar{t, typ}
 	case *types.Pointer:
+		if v, ok := s.refVals[t.S]; ok {
+			if pv, ok := v.(PtrV); ok {
+				pv.Typ = typ
+				return pv
+			}
+		}
 		return PtrV{Sym: t.S, Typ: typ}
 	case *types.Interface:
+		if v, ok := s.refVals[t.S]; ok {
+			if iv, ok := v.(IfaceV); ok {
+				iv.Typ = typ
+				return iv
+			}
+		}
 		return IfaceV{Tag: t, Typ: typ}
 	case *types.Slice, *types.Map, *types.Array:
 		v := s.freshVal(typ, "elem", 0)
@@ -734,12 +755,26 @@ func (s *State) toLeaf(v Val, sort string) Term {
 		if x.Obj == 0 {
 			return Term{"ref_nil", SRef}
 		}
-		return s.c.fresh("ptr", SRef)
+		r := s.c.fresh("ptr", SRef)
+		s.assume(tNot(tEq(r, Term{"ref_nil", SRef})))
+		if s.refVals == nil {
+			s.refVals = map[string]Val{}
+		}
+		s.refVals[r.S] = x
+		return r
 	case IfaceV:
 		if x.Tag.S != "" {
 			return x.Tag
 		}
-		return s.c.fresh("iface", SRef)
+		r := s.c.fresh("iface", SRef)
+		if x.Dyn != nil {
+			s.assume(tNot(tEq(r, Term{"ref_nil", SRef})))
+			if s.refVals == nil {
+				s.refVals = map[string]Val{}
+			}
+			s.refVals[r.S] = x
+		}
+		return r
 	case ConstV:
 		if n, ok := isBV(sort); ok {
 			return bvLit(x.N, n)
